@@ -146,9 +146,19 @@ def spoiled_by(case, qd, present):
         if any(c[0] == "arr" for c in comps):
             if "sliced_index_array_cpu" in present:
                 return "sliced_index_array_cpu"
-            if "sliced_duplicate_indices" in present and q[0] == "two" and q[2][0] == "arr":
-                cols = [x % n if -n <= x < n else None for x in q[2][1]]
-                if None not in cols and len(set(cols)) < len(cols):
+            if "sliced_duplicate_indices" in present:
+                # the scatter keeps the last of repeated indices: columns always matter, rows when to_dense goes through the left product
+                def dup(c, size):
+                    if c[0] != "arr":
+                        return False
+                    v = [x % size for x in c[1] if -size <= x < size]
+                    return len(set(v)) < len(v)
+                rowc, colc = comps[0], (comps[1] if len(comps) > 1 else ["slice", None, None, None])
+                try:
+                    nr_, nc_ = len(L.axis_list(rowc, m)), len(L.axis_list(colc, n))
+                except Exception:
+                    nr_, nc_ = 1, 1
+                if dup(colc, n) or (dup(rowc, m) and 8 * nr_ < nc_):
                     return "sliced_duplicate_indices"
         if "sliced_drops_imag" in present and qd.get("dx") in T.CPLX and not case["cplx"]:
             return "sliced_drops_imag"
@@ -282,9 +292,11 @@ def make_queries(rnd, case, pools, present, nslice):
             add(["two", a, b])
         # repeated column indices: Op.v models the scatter as the pinned code does it (last write wins). Once index arrays
         # work and the probe says duplicates are summed, such queries are compared with the oracle only.
-        if form in ("sa", "aa") and "sliced_index_array_cpu" not in present and "sliced_duplicate_indices" not in present:
-            cols = [x % n for x in b[1] if -n <= x < n]
-            if len(set(cols)) < len(cols):
+        if "sliced_index_array_cpu" not in present and "sliced_duplicate_indices" not in present:
+            def dupl(c, size):
+                v = [x % size for x in c[1] if -size <= x < size]
+                return len(set(v)) < len(v)
+            if (form in ("sa", "aa") and dupl(b, n)) or (form in ("one", "as", "aa") and dupl(a, m)):
                 qs[-1]["nomodel"] = True
     # list pairs (pairwise selection), equal lengths; the empty pair once in a while
     for _ in range(3):
@@ -525,7 +537,7 @@ def run(ctx):
     for c, ob, M in zip(cases, obs, dense):
         judged.append([L.oracle_query(M, qd, o) for qd, o in zip(c["queries"], ob)])
     coq_idx = list(range(len(cases)))
-    keep = {i: [k for k, qd in enumerate(cases[i]["queries"]) if not qd.get("nomodel")] for i in coq_idx}
+    keep = {i: [k for k, qd in enumerate(cases[i]["queries"]) if not qd.get("nomodel") and obs[i][k]["cls"] != "shim_limit"] for i in coq_idx}
     terms = [L.coq_case(cases[i], obs[i], [j[2] for j in judged[i]], fl, keep[i]) for i in coq_idx]
     bad, nq_coq, err = L.eval_cases("c20", terms)
     if err:
